@@ -26,10 +26,19 @@ func c15Chars(s string) []interface{} {
 	return out
 }
 
+// placeholders of spec/c15/Gen_c15.tla for characters that must not travel through TLC state variables
+var c15Place = strings.NewReplacer("{IDOT}", "\u0130", "{KELVIN}", "\u212a", "{ASTROKE}", "\u023a", "{LONGS}", "\u017f",
+	"{NBSP}", "\u00a0", "{VT}", "\v", "{FF}", "\f", "{NEL}", "\u0085", "{LS}", "\u2028", "{IDSP}", "\u3000", "{EMSP}", "\u2003",
+	"{ZWSP}", "\u200b", "{BOM}", "\ufeff")
+
+// c15Text joins the segments; placeholders are replaced IN the case, so that the judge reads the real characters.
 func c15Text(c M) string {
 	var b strings.Builder
 	for _, x := range list(c["segs"]) {
-		b.WriteString(str(obj(x)["text"]))
+		sg := obj(x)
+		t := c15Place.Replace(str(sg["text"]))
+		sg["text"] = t
+		b.WriteString(t)
 	}
 	return b.String()
 }
